@@ -204,11 +204,16 @@ def _detect_causes(
     new = settings.persistence.progress_storage.clear(essence=new) if new is not None else None
     diff = diffs.diff(old, new)
 
-    # A change can restore the last-handled essence (A -> B -> A while B is not yet handled):
-    # the diff against the last-handled state is empty then, but the object has changed
-    # since it was last seen --- which matters for the idling of timers.
+    # Idling of timers is reset by the essential changes of the object, i.e. when its essence
+    # differs from the one of the previously seen event --- whether that change is handled, being
+    # handled, or reverted meanwhile (A -> B -> A while B is not yet handled). On the first sight
+    # (e.g. after the operator's restart), there is nothing seen yet: the object counts as changed
+    # if it differs from its last-handled state, or if nothing is stored as handled at all.
+    # NB: the difference to the last-handled state alone is NOT a change on the later events:
+    # it persists while the change is being handled, and forever if there are no change-detecting
+    # handlers --- every event, incl. those caused by the timers' own results, would reset idling.
     seen = memory.daemons_memory.last_seen_essence
-    seen = new if seen is None else seen
+    essentially_changed = bool(diff) if seen is None else bool(diffs.diff(seen, new))
     memory.daemons_memory.last_seen_essence = new
 
     watching_cause = causes.detect_watching_cause(
@@ -229,7 +234,7 @@ def _detect_causes(
         body=body,
         memo=memory.memo,
         # Only essential changes reset idling, not every event.
-        reset=bool(diff) or bool(diffs.diff(seen, new)),
+        reset=essentially_changed,
     ) if registry._spawning.has_handlers(resource=resource) else None
 
     changing_cause = causes.detect_changing_cause(
